@@ -172,7 +172,14 @@ var (
 
 func listenerCert() (string, string, string, error) {
 	certOnce.Do(func() {
-		certDir, certErr = os.MkdirTemp("", "c08-main-")
+		// inside the run's own directory when started by ./check (removed with it), else under the system's temp dir
+		parent := ""
+		if exe, err := os.Executable(); err == nil {
+			if d := filepath.Dir(exe); strings.Contains(d, string(filepath.Separator)+".work"+string(filepath.Separator)) {
+				parent = d
+			}
+		}
+		certDir, certErr = os.MkdirTemp(parent, "c08-main-")
 		if certErr != nil {
 			return
 		}
